@@ -208,7 +208,7 @@ def judge_c07(H):
                           f"{o['op']} took {o['t_ret'] - o['t_call']:.1f}s / outcome {o['outcome']} with only retriable faults "
                           f"(bound {bound:.1f}s)", {"op": o, "program": prog, "fault_hits": H["fault_hits"]}))
             elif o["outcome"] != "ok" and not (_name(o["op"]) in ("ctx_exc", "ctx_slow_exc") and o["outcome"] == "exc:RuntimeError") \
-                    and not (_name(o["op"]) in ("send", "burst") and o["outcome"] == "exc:KafkaTimeoutError"):
+                    and not (_name(o["op"]) in ("send", "burst", "spray") and o["outcome"] == "exc:KafkaTimeoutError"):
                 V.append(("transactional_call_failed_under_retriable_faults_only",
                           f"{o['op']} -> {o['outcome']} ({o.get('msg', '')}) although only retriable faults were injected "
                           f"({sorted(H['fault_hits'])})", {"op": o, "program": prog, "fault_hits": H["fault_hits"], "fault": fault}))
@@ -243,7 +243,7 @@ def _legal_flags(H):
             legal = s == "READY"
             if legal:
                 state[who] = "IN"
-        elif nm in ("send", "burst", "offsets"):
+        elif nm in ("send", "burst", "spray", "offsets"):
             legal = s == "IN"
         elif nm in ("commit", "abort", "finish"):
             legal = s == "IN"
@@ -312,7 +312,7 @@ def judge_c16(H):
             st["calls_after_fatal"] += 1
         elif nm == "begin":
             exp, nxt = ("ok", "IN") if state == "READY" else ("raise", state)
-        elif nm in ("send", "burst"):
+        elif nm in ("send", "burst", "spray"):
             exp = "ok" if state == "IN" else "raise"
         elif nm == "offsets":
             exp = "ok" if state == "IN" else "raise"
@@ -341,7 +341,7 @@ def judge_c16(H):
             and o["t_call"] - 1e-9 <= fired["t"] <= o.get("t_settled", o["t_ret"]) + 1e-9
         if lands_during:
             fault_applied = True
-            in_txn_now = nxt == "IN" or (state == "IN" and nm in ("commit", "abort", "send", "burst", "offsets"))
+            in_txn_now = nxt == "IN" or (state == "IN" and nm in ("commit", "abort", "send", "burst", "spray", "offsets"))
             if kind == "fatal":
                 # a call that needs the cluster (offsets, commit, abort with data, context exit) and during which the
                 # fatal reply arrives cannot have succeeded
